@@ -74,73 +74,141 @@ def Seg.pathEdges (s : Seg) : List Nat := s.steps.reverse.map (·.1)
 inductive Helper where
   | paths         -- TraversePaths
   | terminals     -- AcyclicTraverseTerminals
-  | nodes         -- AcyclicTraverseNodes (nodeFilter = nil)
-  | intermediary  -- TraverseIntermediaryPaths (nodeFilter = accept all)
+  | nodes         -- AcyclicTraverseNodes
+  | intermediary  -- TraverseIntermediaryPaths
 deriving Repr, DecidableEq, Inhabited
+
+/-- a traversal plan over an abstract ordered adjacency. `adj n` lists (edge id, neighbour) in the
+order the database returns them. The three optional filters are the caller's: `nodeFilter`
+(AcyclicTraverseNodes: may be nil; TraverseIntermediaryPaths: required), `descentFilter`
+(plan.DescentFilter) and `pathFilter` (plan.PathFilter); `none` = nil. -/
+structure Plan where
+  adj : Nat → List (Nat × Nat)
+  helper : Helper
+  nodeFilter : Option (Nat → Bool) := none
+  descentFilter : Option (Seg → Bool) := none
+  pathFilter : Option (Seg → Bool) := none
+
+def optAccept {α : Type} (f : Option (α → Bool)) (x : α) : Bool :=
+  match f with
+  | none => true
+  | some g => g x
+
+/-- the helper's wrapped DescentFilter applied to ONE candidate, transcribed call by call.
+Returns (tracker, push?, collected). Position of the calls, as in the code:
+  nodes / intermediary:  user descent filter; then `nodeFilter(node) && ShouldCollect()` — the
+                         node filter FIRST, `ShouldCollect()` only for accepted nodes (short-circuit &&)
+  paths:                 user descent filter; then `!IsCycle()`
+  terminals:             user descent filter only -/
+def descentOne (p : Plan) (t : Tracker) (c : Seg) : Tracker × Bool × List Seg :=
+  if !optAccept p.descentFilter c then (t, false, []) else
+  match p.helper with
+  | .paths => (t, !c.isCycle, [])
+  | .terminals => (t, true, [])
+  | _ =>
+    if optAccept p.nodeFilter c.node then
+      ((t.shouldCollect).1, true, if (t.shouldCollect).2 then [c] else [])
+    else (t, true, [])
+
+/-- the `for idx := 0; idx < len(descendents); idx++` loop: (tracker, pushed in order, collected in order) -/
+def pushAll (p : Plan) : Tracker → List Seg → Tracker × List Seg × List Seg
+  | t, [] => (t, [], [])
+  | t, c :: cs =>
+    let r := descentOne p t c
+    let rest := pushAll p r.1 cs
+    (rest.1, (if r.2.1 then c :: rest.2.1 else rest.2.1), r.2.2 ++ rest.2.2)
+
+/-- the path visitor call of `Traversal`: `pathVisitor != nil && nothing pushed && Depth() > 0 &&
+(PathFilter == nil || PathFilter(next))`, then the helper's visitor `if ShouldCollect() { collect }` -/
+def visitOne (p : Plan) (t : Tracker) (next : Seg) (nothingPushed : Bool) : Tracker × List Seg :=
+  match p.helper with
+  | .nodes => (t, [])
+  | .intermediary => (t, [])
+  | _ =>
+    if nothingPushed && decide (next.depth > 0) && optAccept p.pathFilter next then
+      ((t.shouldCollect).1, if (t.shouldCollect).2 then [next] else [])
+    else (t, [])
 
 structure St where
   stack : List Seg            -- top of stack = head
   tracker : Tracker
   visited : List Nat := []    -- the ExpansionFilter bitmap of the acyclic helpers
-  outPaths : List Seg := []   -- collected, in collection order (newest first)
-  outNodes : List Nat := []
+  out : List Seg := []        -- collected segments, in collection order
 deriving Repr, Inhabited
 
-/-- descent filter of the helper applied to one candidate; returns the new state and whether to push -/
-def descentFilter (h : Helper) (st : St) (c : Seg) : St × Bool :=
-  match h with
-  | .paths => (st, !c.isCycle)
-  | .terminals => (st, true)
-  | .nodes =>
-    let (t', col) := st.tracker.shouldCollect
-    ({ st with tracker := t', outNodes := if col then c.node :: st.outNodes else st.outNodes }, true)
-  | .intermediary =>
-    let (t', col) := st.tracker.shouldCollect
-    ({ st with tracker := t', outPaths := if col then c :: st.outPaths else st.outPaths }, true)
+def Plan.acyclic (p : Plan) : Bool := p.helper == .terminals || p.helper == .nodes
 
-def pushAll (h : Helper) : St → List Seg → St × List Seg
-  | st, [] => (st, [])
-  | st, c :: cs =>
-    let (st', ok) := descentFilter h st c
-    let (st'', rest) := pushAll h st' cs
-    (st'', if ok then c :: rest else rest)
+/-- `nextTraversal`: the ExpansionFilter (CheckedAdd on the visited bitmap, acyclic helpers only), then the
+ordered fetch. Returns the new bitmap and the descendants. -/
+def expandNext (p : Plan) (visited : List Nat) (next : Seg) : List Nat × List Seg :=
+  let expand := !p.acyclic || !(visited.contains next.node)
+  (if p.acyclic && expand then next.node :: visited else visited,
+   if expand then (p.adj next.node).map (fun e => next.descend e.1 e.2) else [])
 
-/-- one iteration of the `for len(stack) > 0` loop; `none` = loop ended -/
-def iter (adj : Nat → List (Nat × Nat)) (h : Helper) (st : St) : Option St :=
+/-- one iteration of the `for len(stack) > 0` loop of ops.Traversal; `none` = loop ended -/
+def iter (p : Plan) (st : St) : Option St :=
   match st.stack with
   | [] => none
   | next :: below =>
-    let acyclic := h == .terminals || h == .nodes
-    -- ExpansionFilter: CheckedAdd on the visited bitmap
-    let expand := !acyclic || !(st.visited.contains next.node)
-    let visited := if acyclic && expand then next.node :: st.visited else st.visited
-    let branches := if expand then (adj next.node).map (fun p => next.descend p.1 p.2) else []
-    let st1 : St := { st with stack := below, visited := visited }
-    let (st2, pushed) := pushAll h st1 branches
-    -- Go appends in order, so the last pushed is popped first
-    let st3 : St := { st2 with stack := pushed.reverse ++ st2.stack }
-    -- path terminal: nothing pushed, depth > 0, visitor present (paths / terminals)
-    let st4 : St :=
-      if pushed.isEmpty && next.depth > 0 then
-        match h with
-        | .paths =>
-          let (t', col) := st3.tracker.shouldCollect
-          { st3 with tracker := t', outPaths := if col then next :: st3.outPaths else st3.outPaths }
-        | .terminals =>
-          let (t', col) := st3.tracker.shouldCollect
-          { st3 with tracker := t', outNodes := if col then next.node :: st3.outNodes else st3.outNodes }
-        | _ => st3
-      else st3
-    if st4.tracker.atLimit then some { st4 with stack := [] } else some st4
+    let ex := expandNext p st.visited next
+    let pa := pushAll p st.tracker ex.2
+    let vi := visitOne p pa.1 next pa.2.1.isEmpty
+    -- Go appends in order, so the last pushed is popped first; `if AtLimit() { break }`
+    some { stack := if vi.1.atLimit then [] else pa.2.1.reverse ++ below, tracker := vi.1, visited := ex.1,
+           out := st.out ++ pa.2.2 ++ vi.2 }
 
-def loop (adj : Nat → List (Nat × Nat)) (h : Helper) : Nat → St → St
+def loop (p : Plan) : Nat → St → St
   | 0, st => st
-  | fuel + 1, st => match iter adj h st with
+  | fuel + 1, st => match iter p st with
     | none => st
-    | some st' => loop adj h fuel st'
+    | some st' => loop p fuel st'
 
-def start (h : Helper) (root : Nat) (skip limit : Int) : St :=
-  { stack := [{ root := root, steps := [] }], tracker := { limit := limit, skip := skip },
-    outNodes := if h == .nodes then [root] else [] }
+def start (root : Nat) (skip limit : Int) : St :=
+  { stack := [{ root := root, steps := [] }], tracker := { limit := limit, skip := skip } }
+
+/-! ### the plan-defined result: tracker-free DFS event sequence, filters first, then the window -/
+
+structure Core where
+  stack : List Seg
+  visited : List Nat
+deriving Repr, Inhabited
+
+/-- does the helper's descent filter push candidate `c`? -/
+def pushOK (p : Plan) (c : Seg) : Bool :=
+  optAccept p.descentFilter c && (p.helper != .paths || !c.isCycle)
+
+/-- is candidate `c` offered for collection by the descent filter? (nodes / intermediary: passes the
+user descent filter AND the node filter) -/
+def offeredByDescent (p : Plan) (c : Seg) : Bool :=
+  (p.helper == .nodes || p.helper == .intermediary) && optAccept p.descentFilter c && optAccept p.nodeFilter c.node
+
+/-- is `next` offered for collection by the path visitor? -/
+def offeredByVisit (p : Plan) (next : Seg) (nothingPushed : Bool) : Bool :=
+  (p.helper == .paths || p.helper == .terminals) && nothingPushed && decide (next.depth > 0) && optAccept p.pathFilter next
+
+/-- one DFS step without any tracker: the new stack/bitmap and the candidates that pass the filters, in order -/
+def iterCore (p : Plan) (c : Core) : Option (Core × List Seg) :=
+  match c.stack with
+  | [] => none
+  | next :: below =>
+    let ex := expandNext p c.visited next
+    let pushed := ex.2.filter (pushOK p)
+    some ({ stack := pushed.reverse ++ below, visited := ex.1 },
+          ex.2.filter (offeredByDescent p) ++ (if offeredByVisit p next pushed.isEmpty then [next] else []))
+
+/-- the filtered candidate sequence in the DFS order the code uses -/
+def events (p : Plan) : Nat → Core → List Seg
+  | 0, _ => []
+  | fuel + 1, c => match iterCore p c with
+    | none => []
+    | some (c', off) => off ++ events p fuel c'
+
+/-- what the plan defines: filter first, THEN the skip/limit window over the filtered sequence -/
+def specOut (p : Plan) (root : Nat) (skip limit : Int) (fuel : Nat) : List Seg :=
+  window skip limit (events p fuel { stack := [{ root := root, steps := [] }], visited := [] })
+
+/-- AcyclicTraverseNodes also tests the root against the node filter, outside skip/limit -/
+def rootIncluded (p : Plan) (root : Nat) : List Nat :=
+  if p.helper == .nodes && optAccept p.nodeFilter root then [root] else []
 
 end Dawgs.C17.Seq
